@@ -498,6 +498,58 @@ Theorem fastpath_roundtrip M P fS fR E ver tb e : fast_taken P e = true ->
   vload M fR E (vdump P fS ver tb e) = ([], Ok LStop).
 Proof. intros H. unfold vdump. now rewrite H. Qed.
 
+(* ---- 4'. a failure of the loader is one of three kinds, never EOFError; so with the delivering dispatch every exception
+   message reaches the request it answers ---- *)
+Lemma iter_elems_raise b v e : iter_elems b v = Raise e -> e = TypeError.
+Proof. destruct v; cbn; try discriminate; try (now intros [= <-]). destruct b; discriminate. Qed.
+Lemma unpack_raise n v e : unpack n v = Raise e -> e = TypeError \/ e = ValueError.
+Proof.
+  unfold unpack. destruct (iter_elems true v) as [es| | |] eqn:EI; cbn [bind]; try discriminate.
+  - destruct (Nat.eqb _ _); [discriminate|]. intros [= <-]. now right.
+  - intros [= <-]. left. now apply iter_elems_raise in EI.
+Qed.
+Lemma build_raise E eff rc ok a t b e : snd (build E eff rc ok a t b) = Raise e -> e = TypeError.
+Proof.
+  unfold build. destruct (negb ok); [now intros [= <-]|].
+  destruct (iter_elems true t) as [items| | |]; try discriminate.
+  destruct (do_sets items) as [s [u|x| |]]; discriminate.
+Qed.
+Lemma generic_raise E eff m n a t b e : snd (generic_or_fail E eff m n a t b) = Raise e ->
+  e = TypeError \/ e = ValueError \/ e = UnicodeError.
+Proof.
+  unfold generic_or_fail, generic_name_check.
+  destruct (existsb is_surr _); [intros [= <-]; auto|]. destruct (existsb (N.eqb 0) _); [intros [= <-]; auto|].
+  intros H. apply build_raise in H. auto.
+Qed.
+Lemma run_prog_raise M fR E mods modname clsname e :
+  run_prog M fR E mods modname clsname resolution_prog = Raise e -> e = TypeError.
+Proof.
+  unfold resolution_prog. cbn [run_prog]. destruct (eval_cond _ _ _ _ _); destruct (eval_cond _ _ _ _ _); cbn [run_prog eval_src getattr_ns];
+    try discriminate; destruct clsname; try discriminate; try (destruct (hooks_run M fR)); try discriminate; now intros [= <-].
+Qed.
+Theorem vload_raise_kinds M fR E v e : snd (vload M fR E v) = Raise e -> e = TypeError \/ e = ValueError \/ e = UnicodeError.
+Proof.
+  unfold vload. destruct (py_eq_one v); [discriminate|].
+  assert (U : forall n x, unpack n x = Raise e -> e = TypeError \/ e = ValueError \/ e = UnicodeError).
+  { intros n x H. apply unpack_raise in H as [->| ->]; auto. }
+  destruct v; try discriminate;
+  (destruct (unpack 4 _) as [[|key [|args [|attrs [|tb [|? ?]]]]]| | |] eqn:U4; try discriminate; try (intros [= <-]; auto; fail);
+   try (intros [= <-]; exact (U _ _ U4));
+   destruct (unpack 2 key) as [[|modname [|clsname [|? ?]]]| | |] eqn:U2; try discriminate; try (intros [= <-]; auto; fail);
+   try (intros [= <-]; exact (U _ _ U2)); cbv zeta;
+   destruct (run_prog _ _ _ _ _ _ _) as [[[c ok| |imps [[c ok]|]]|]| | |] eqn:ER; try discriminate;
+   try (intros H; apply build_raise in H; auto; fail); try (apply generic_raise);
+   intros [= <-]; left; exact (run_prog_raise _ _ _ _ _ _ _ ER)).
+Qed.
+
+Theorem exception_reaches_request M fR E v : forall e, dispatch_exception true (snd (vload M fR E v)) <> Escapes e.
+Proof.
+  intros e. unfold dispatch_exception. destruct (snd (vload M fR E v)) as [l|x| |] eqn:EV; try discriminate.
+  destruct (vload_raise_kinds _ _ _ _ _ EV) as [->|[->| ->]]; discriminate.
+Qed.
+Theorem exception_escapes_refuted M fR E : dispatch_exception false (snd (vload M fR E (PInt 2))) = Escapes TypeError.
+Proof. reflexivity. Qed.
+
 (* ---- 5. disclosure: what the sender's two switches deny never reaches the wire ---- *)
 Theorem tb_not_disclosed P fS ver tb1 tb2 e : incl_tb fS = false -> vdump P fS ver tb1 e = vdump P fS ver tb2 e.
 Proof. intros H. unfold vdump, tb_field. now rewrite H. Qed.
